@@ -37,6 +37,18 @@ def carried(rng, vals, poisons=(50.0, -50.0, 0.0, 1.0), p_masked=0.2, p_list=0.1
     return arr(vals)
 
 
+def int_carriers(vals):
+    """the same whole-number series in every integer dtype that can hold it (unsigned ones included): (name, array)"""
+    iv = [int(v) for v in vals]
+    out = []
+    for name in ("uint8", "int8", "uint16", "int16", "uint32", "int32", "uint64", "int64"):
+        info = np.iinfo(name)
+        if all(info.min <= v <= info.max for v in iv):
+            out.append((name, np.array(iv, dtype=name)))
+    out.append(("list-int", list(iv)))
+    return out
+
+
 def ptype(rng, v):
     """the same number as a Python int / float or a numpy scalar (parameter *types* must not matter)"""
     if v is None or isinstance(v, bool):
